@@ -118,6 +118,28 @@ def h_table_sort3(a0: Optional[int], a1: Optional[int], a2: Optional[int], b0: O
     return H.ok()
 
 
+def h_table_sort_ext(k0: Optional[int], k1: Optional[int], k2: Optional[int], e0: Optional[int], e1: Optional[int], e2: Optional[int], rev: bool, na_last: bool) -> bool:
+    """
+    pre: H.fix(rev=rev, na_last=na_last)
+    post: _
+    """
+    # the sort key is a vector that is NOT a column of the table (it may even carry a column's name): rows follow the key vector's values
+    H.reset()
+    if H.skip(locals()): return True
+    ks = [k0, k1, k2]; es = [e0, e1, e2]
+    t = Table({'k': ks, 'pos': [0, 1, 2]})
+    key = Vector(es, name=H.cfg('keyname'))
+    out = t.sort_by(key, reverse=rev, na_last=na_last)
+    rows = H.rows_of(out)
+    if sorted(r[1] for r in rows) != [0, 1, 2]: return H.fail('not a permutation: %r' % (rows,))
+    for r in rows:
+        if not H.same(ks[r[1]], r[0]): return H.fail('cells split: %r' % (rows,))
+    why = _sorted_contract([(es[r[1]], r[1]) for r in rows], 1, [rev], na_last)
+    if why: return H.fail('sorted by an external key vector named %r with values %r: %s (rows %r)' % (H.cfg('keyname'), es, why, rows))
+    if not H.same_list(list(key), es) or key.name != H.cfg('keyname'): return H.fail('key vector modified')
+    return H.ok()
+
+
 def h_vector_sort(k0: Optional[int], k1: Optional[int], k2: Optional[int], k3: Optional[int], n: int, rev: bool, na_last: bool) -> bool:
     """
     pre: 0 <= n <= H.cfg('R', 3)
@@ -201,6 +223,12 @@ def obligations(tier):
             obs.append(dict(name='table2[n=3,scalar reverse=%d,na_last=%d]' % (r, na), fn='h_table_sort2',
                             config={'n': 3, 'ra': r, 'rb': r, 'scalar_rev': True, 'na_last': na}, budget=100 if q else 900,
                             bounds='rows=3, 2 keys, reverse given as one bool'))
+    for rev in B:
+        for na in B:
+            for kn in ('k', None):
+                obs.append(dict(name='table-extkey[name=%s,rev=%d,na_last=%d]' % (kn, rev, na), fn='h_table_sort_ext', config={'keyname': kn, 'rev': rev, 'na_last': na},
+                                budget=90 if q else 400, bounds='3 rows; the key is an external Optional[int] vector (unbounded) named like a column / unnamed; column k unbounded too',
+                                smoke=[[1, 2, 3, 3, None, 1, rev, na]]))
     obs.append(dict(name='vector[n<%d]' % R, fn='h_vector_sort', config={'R': R - 1}, budget=40 if q else 200,
                     bounds='len<%d, Optional[int] unbounded' % R, smoke=[[3, None, 1, 2, 2, False, True]]))
     for rev in B:
